@@ -1,5 +1,6 @@
 import RtenVerif.Lemmas.Overlap
 import RtenVerif.Lemmas.OverlapCompleteOps
+import RtenVerif.Model.TensorBounds
 
 /-!
 # C08 — The overlap check never admits aliasing layouts
@@ -275,5 +276,51 @@ example : ¬ DomChain [(4, 3), (4, 4)] := fun h => by
 example : ¬ Derived [(5, 1), (5, 0)] := fun h => by
   have := c08_derived_accepted _ h
   revert this; decide
+
+/-! ## C08.T4 — capacity expansion runs the overlap check on the GROWN layout
+
+`TensorBase::<Vec<T>, L>::expanded_layout(axis, new_size)` (the decision behind `has_capacity`
+and `append`) is modelled by `TensorBounds.expandedLayout` in `Model/TensorBounds.lean`
+(C06's model: `resize_dim` = `setSize`, `checked_min_data_len`, capacity comparison,
+`may_have_internal_overlap(new_layout.shape(), new_layout.strides())`).  The machine-arithmetic
+side (the decision on `usize` equals this ideal one for every requested size) is
+`TensorBounds.c06_T3_expandedLayout`, and the storage-bounds side of `append` is
+`TensorBounds.c06_T2_append`, both in `Props/C06.lean`; they are cited, not redone. -/
+
+/-- **C08.T4** Whenever `expanded_layout` accepts (`has_capacity` = true / `append` succeeds),
+the layout it returns is the *grown* layout (`axis` resized to `new_size`, strides unchanged),
+that grown layout passes `may_have_internal_overlap`, and hence (T1) no two distinct valid
+indices of the grown tensor share a storage offset.  No hypothesis on the old layout: in
+particular the growth axis may have size 0 or 1 and a stride that does not step over the
+other dimensions. -/
+theorem c08_expansion_checks_grown_layout (dims nl : List (Nat × Nat))
+    (capacity axis newSize : Nat)
+    (h : TensorBounds.expandedLayout dims capacity axis newSize = some nl) :
+    nl = TensorBounds.setSize dims axis newSize ∧ mayOverlap nl = false ∧
+    ∀ i j, ValidIdx nl i → ValidIdx nl j → offset nl i = offset nl j → i = j := by
+  unfold TensorBounds.expandedLayout at h
+  split at h
+  · cases h
+  · split at h
+    · rename_i hok
+      cases h
+      exact ⟨rfl, hok.2, fun i j hi hj ho => c08_no_overlap_injective _ i j hok.2 hi hj ho⟩
+    · cases h
+
+/-- Non-vacuity: a `[1,4]` tensor with strides `[4,1]` and capacity 16 can grow to `[3,4]`. -/
+example : TensorBounds.expandedLayout [(1, 4), (4, 1)] 16 0 3 = some [(3, 4), (4, 1)] := by
+  decide
+
+/-- Why it must be the grown layout: the transposed `[4,1]` tensor has shape `[1,4]`, strides
+`[1,1]`.  Its current layout is accepted (the unit axis hides the stride), the grown layout
+`[2,4]`/`[1,1]` aliases (`[0,1]` and `[1,0]`), the overlap check rejects it, and the modelled
+`expanded_layout` refuses although the capacity (16 ≥ 5) would suffice.  A decision that
+looked at the old shape would accept it. -/
+example : mayOverlap [(1, 1), (4, 1)] = false ∧
+    mayOverlap (TensorBounds.setSize [(1, 1), (4, 1)] 0 2) = true ∧
+    offset [(2, 1), (4, 1)] [0, 1] = offset [(2, 1), (4, 1)] [1, 0] ∧
+    TensorBounds.checkedMinDataLen (TensorBounds.setSize [(1, 1), (4, 1)] 0 2) = some 5 ∧
+    TensorBounds.expandedLayout [(1, 1), (4, 1)] 16 0 2 = none := by
+  decide
 
 end RtenVerif.Overlap
